@@ -244,6 +244,30 @@ PROPS = {
         assumptions=["a valid input refused with an error still satisfies this property (returns); whether the refusal is right is C01/C02's business"],
         technique="runtime monitoring: fault-class injection + result/panic/divergence monitors",
     ),
+    "C14": dict(
+        level="fault_enumeration",
+        floor=20,
+        builds=["harness"],
+        legs=_legs_simple("c14", 160, 3000, stall_s=90),
+        rule="Per case one small input (<= 4 chromosomes, <= 12 items each, bigWig on even and bigBed on odd cases; compression, "
+        "items_per_slot, block_size, zooms, inmemory, channel_size, one/two pass random) written into a recording sink "
+        "that logs every write/seek/flush reaching it, once on the deterministic current-thread runtime and once on the "
+        "generated multi-thread configuration (the operation stream is schedule dependent). Crash points: for EVERY "
+        "prefix k of the log the image produced by the first k operations is opened; it must be rejected (error or "
+        "panic anywhere) or serve chromosome table, every record and every advertised zoom level exactly as the "
+        "complete file does. Faults: for EVERY operation index k (plus a margin of 3) one run with the k-th operation "
+        "failing (io::ErrorKind::Other) and one with every operation from k on failing (quick: every third k); the "
+        "call must not return Ok (Err or panic both count) and must terminate. Violations are keyed on the kind of the "
+        "failed operation and the logical region of the file it touched (header / summary / data / chrom_tree / index / "
+        "zoom_data / zoom_index / trailing_magic), not on the raw k. Non-trivial = every case; the evidence counts "
+        "crash points, accepted prefixes, delivered faults per kind.",
+        exhaustive=False,
+        assumptions=[
+            "crash points are prefixes of the operation stream at the sink; torn writes inside one operation and file-system reordering are out of reach",
+            "a reader panic on a truncated image counts as rejection",
+        ],
+        technique="runtime monitoring: recording / fault-injecting sink, exhaustive over operation indices per input",
+    ),
     "C07": dict(
         level="exploration",
         floor=50,
